@@ -97,6 +97,14 @@ func (e *Engine) callFunction(f *frame, fn *ssa.Function, args []Val, bindings [
 	if e.Opaque[fn] {
 		return e.callOpaque(f, fn, args)
 	}
+	if e.inInit && fn.Name() == "init" && fn.Signature.Recv() == nil {
+		// initialisers of imported packages: repository packages are evaluated too, others skipped
+		if fn.Pkg != nil && e.inRepo(fn) && len(fn.Blocks) > 0 {
+			_, st, _ := e.runFunc(fn, nil, nil, f.st, nil)
+			f.st = st
+		}
+		return Val{T: types.NewTuple(), Tup: []Val{}}
+	}
 	if fc, ok := e.Contracts[fn]; ok && fn != e.verifying || ok && e.specDepth > 0 {
 		return e.useContract(f, fc, args, pos)
 	}
@@ -450,6 +458,21 @@ func (e *Engine) frameCheck(p Val, t types.Type, pos token.Pos) {
 	e.oblige("frame", "store", X.Or(alts...), pos)
 }
 
+// preferVisible asks for counterexamples in which the store changes the byte it hits.
+func (e *Engine) preferVisible(st *State, p Val, v Val) {
+	if e.specDepth > 0 || !e.frameOn || len(e.Obls) == 0 || len(v.C) != 1 || p.Cell != nil {
+		return
+	}
+	ob := e.Obls[len(e.Obls)-1]
+	if ob.Kind != "frame" {
+		return
+	}
+	cur := e.load(st, p)
+	if len(cur.C) == 1 && cur.C[0].S == v.C[0].S {
+		ob.Prefer = e.X.Not(e.X.Eq(cur.C[0], v.C[0]))
+	}
+}
+
 // havocLocs replaces the contents of the given locations by unconstrained values.
 func (e *Engine) havocLocs(st *State, locs []frameLoc) {
 	X := e.X
@@ -639,6 +662,16 @@ func (e *Engine) copyBuiltin(f *frame, x *ssa.Call, args []Val) Val {
 	if e.frameOn && e.specDepth == 0 && !dst.ref().IsConst() {
 		l := frameLoc{kind: "range", ref: dst.ref(), keyPfx: "arr:" + typeKey(elem) + "/", lo: dst.off(), hi: X.BVAdd(dst.off(), n), text: "copy"}
 		e.oblige("frame", "copy", e.locAllowed(l), x.Pos())
+		// a counterexample is observable when the copied bytes differ from what they overwrite
+		if e.specDepth == 0 && typeKey(elem) == "uint8" {
+			h := e.heap(f.st, "arr:uint8/", smt.BV(8))
+			var diff []*smt.Term
+			for k := 0; k < 16; k++ {
+				kk := X.Const(uint64(k), 64)
+				diff = append(diff, X.Implies(X.Ult(kk, n), X.Not(X.Eq(X.Select(X.Select(h, src.ref()), X.BVAdd(src.off(), kk)), X.Select(X.Select(h, dst.ref()), X.BVAdd(dst.off(), kk))))))
+			}
+			e.Obls[len(e.Obls)-1].Prefer = X.And(diff...)
+		}
 	}
 	bound := 0
 	if dst.Bound > 0 {
